@@ -13,6 +13,11 @@ let () =
   Registry.register "c14T" (fun toks -> match toks with
     | [n; b; e] -> show_search (search_threshold (z_of_string n) (z_of_string b) (z_of_string e))
     | _ -> "BADCASE");
+  (* c14N: the predicates of the implementation side call Search themselves (nested call); in the model a
+     call is a pure function of its own count and predicates, so the outer call is the c14T call *)
+  Registry.register "c14N" (fun toks -> match toks with
+    | [n; b; e] -> show_search (search_threshold (z_of_string n) (z_of_string b) (z_of_string e))
+    | _ -> "BADCASE");
   Registry.register "c14A" (fun toks -> match toks with
     | t :: xs -> show_search (search_list_asc (List.map z_of_string xs) (z_of_string t))
     | _ -> "BADCASE");
